@@ -1,5 +1,6 @@
 import PC.Proofs.SupArms
 import PC.Spec.SupSpec
+import PC.Proofs.SupOne
 /-! C08 — manual start/stop/restart, at most one live instance (supervisor model). -/
 namespace PC.Props.C08
 open PC.Sup
@@ -55,5 +56,175 @@ theorem r1_two_alive : aliveCount (runTrace (init .coarse false [{ onSignal := n
 example : (runTrace (init .coarse false [{}])
     [.call 0 .runMain, .run 0, .run 1, .call 1 (.restart 0), .run 2, .run 1, .run 2, .run 3]).2.filter isLaunch
       = [.launch 0, .launch 0] := by decide
+
+
+/-! ### At most one live command per replica, globally (outside the overlap finding R1)
+
+    `PC.Sup.ReachG`: every state reachable by thread steps that overwrite no registration
+    (`KeepsRegs`), by external events in any order and with any map orders. The restriction is exactly
+    what R1 violates: `RestartProcess` (or a second concurrent `StartProcess`) registering a new
+    instance while the previous one is still registered. -/
+
+/-- **At no time are two commands of the same process replica alive at once** - in every state
+    reachable without overwriting a registration: any processes, any schedule at the finest
+    granularity, any sequence of exits, signals' effects, probe results, output, timeouts and
+    requests (start / stop / restart / shutdown, sequential or concurrent). -/
+theorem one_live_command (gr : Gran) (o : Bool) (cfgs : List Cfg) {s : Sys} (hr : ReachG (init gr o cfgs) s) (n : Name) :
+    aliveCount s n ≤ 1 := by
+  have g := reachG_one gr o cfgs hr
+  unfold aliveCount
+  apply filter_length_le_one
+  intro i j hi hj pi pj
+  simp only [decide_eq_true_eq] at pi pj
+  have ei : s.inst i = s.insts[i] := by unfold Sys.inst; simp [List.getD_eq_getElem?_getD, List.getElem?_eq_getElem hi]
+  have ej : s.inst j = s.insts[j] := by unfold Sys.inst; simp [List.getD_eq_getElem?_getD, List.getElem?_eq_getElem hj]
+  exact one_alive_unique g i j (by rw [ei]; exact pi.2) (by rw [ej]; exact pj.2)
+    (by unfold Sys.nameOf; rw [ei, ej, pi.1, pj.1])
+
+/-- the guard, executable: every registration is kept (or removed by its own goroutine), every
+    process goroutine created is registered -/
+def keepsRegsB (s s' : Sys) (t : Tid) : Bool :=
+  ((List.range s.running.length).all fun n =>
+    match s.running.getD n none with
+    | none => true
+    | some i => s'.running.getD n none == some i || (s'.running.getD n none == none && (s.thr t).kind == .proc i)) &&
+  ((List.range s'.threads.length).all fun u =>
+    !decide (s.threads.length ≤ u) ||
+      match (s'.thr u).kind with
+      | .proc j => s'.running.getD (s'.nameOf j) none == some j
+      | _ => true)
+
+theorem keepsRegsB_sound {s s' : Sys} {t : Tid} (h : keepsRegsB s s' t = true) : KeepsRegs s s' t := by
+  unfold keepsRegsB at h
+  simp only [Bool.and_eq_true, List.all_eq_true, List.mem_range] at h
+  obtain ⟨h1, h2⟩ := h
+  constructor
+  · intro n i hn
+    have hl : n < s.running.length := by
+      apply Classical.byContradiction
+      intro hge
+      simp [List.getD_eq_getElem?_getD, List.getElem?_eq_none (Nat.le_of_not_lt hge)] at hn
+    have := h1 n hl
+    rw [hn] at this
+    simp only [Bool.or_eq_true, Bool.and_eq_true, beq_iff_eq] at this
+    exact this
+  · intro u j hu hu' hk
+    have := h2 u hu'
+    simp only [hu, decide_true, Bool.not_true, Bool.false_or, hk, beq_iff_eq] at this
+    exact this
+
+/-- `runThread` with the guard checked at every thread step -/
+def runThreadG (s : Sys) (t : Tid) (h : Hints) : Nat → Option Sys
+  | 0 => some s
+  | fuel + 1 =>
+    let s' := stepThread s t h
+    if keepsRegsB s s' t then
+      if s'.crashed then some s' else if mustPark s' t then some s' else runThreadG s' t h fuel
+    else none
+
+/-- `step` with the guard checked at every thread step -/
+def stepG (s : Sys) (c : Choice) (h : Hints) : Option Sys :=
+  match c with
+  | .run t =>
+    if enabledThr { s with obs := [] } t ∧ t < s.threads.length then runThreadG { s with obs := [] } t h fuelPerStep
+    else some (step s c h)
+  | c => some (step s c h)
+
+def runG (s : Sys) : List Choice → Option Sys
+  | [] => some s
+  | c :: cs => match stepG s c {} with
+    | some s' => runG s' cs
+    | none => none
+
+theorem runThreadG_reach {s0 s s' : Sys} (t : Tid) (h : Hints) (fuel : Nat) (hr : ReachG s0 s) (ht : t < s.threads.length)
+    (e : runThreadG s t h fuel = some s') : ReachG s0 s' ∧ s' = runThread s t h fuel := by
+  induction fuel generalizing s with
+  | zero => simp only [runThreadG, Option.some.injEq] at e; subst e; exact ⟨hr, rfl⟩
+  | succ n ih =>
+    unfold runThreadG at e
+    unfold runThread
+    simp only at e ⊢
+    split at e
+    · rename_i hk
+      have hr' := ReachG.thread t h hr ht (keepsRegsB_sound hk)
+      split at e
+      · rename_i hc; simp only [Option.some.injEq] at e; subst e; simp [hc]; exact hr'
+      · rename_i hc
+        split at e
+        · rename_i hm; simp only [Option.some.injEq] at e; subst e; simp [hc, hm]; exact hr'
+        · rename_i hm
+          have ht' : t < (stepThread s t h).threads.length := Nat.lt_of_lt_of_le ht (stepThread_le s t h).tlen
+          obtain ⟨a, b⟩ := ih hr' ht' e
+          simp [hc, hm]
+          exact ⟨a, b⟩
+    · cases e
+
+theorem stepG_reach {s0 s s' : Sys} (c : Choice) (h : Hints) (hr : ReachG s0 s) (e : stepG s c h = some s') :
+    ReachG s0 s' ∧ s' = step s c h := by
+  have hext : ∀ c', (∀ t, c' ≠ .run t) → ReachG s0 (step s c' h) := fun c' hc => ReachG.ext c' h hr hc
+  cases c with
+  | run t =>
+    simp only [stepG] at e
+    split at e
+    · rename_i hen
+      obtain ⟨a, b⟩ := runThreadG_reach t h fuelPerStep (ReachG.clear hr) hen.2 e
+      refine ⟨a, ?_⟩
+      rw [b]; unfold step; simp only; rw [if_pos hen.1]
+    · rename_i hen
+      simp only [Option.some.injEq] at e; subst e
+      refine ⟨?_, rfl⟩
+      have hne : ¬ enabledThr { s with obs := [] } t = true := by
+        intro he
+        apply hen
+        refine ⟨he, ?_⟩
+        apply Classical.byContradiction
+        intro hge
+        have : ({ s with obs := [] } : Sys).thr t = { kind := .waiter 0, pc := .finished } := by
+          unfold Sys.thr
+          simp [List.getD_eq_getElem?_getD, List.getElem?_eq_none (Nat.le_of_not_lt hge)]
+        unfold enabledThr at he
+        simp [this] at he
+      have : step s (.run t) h = { s with obs := [] } := by unfold step; simp only; rw [if_neg hne]
+      rw [this]; exact ReachG.clear hr
+  | exit n code => simp only [stepG, Option.some.injEq] at e; subst e; exact ⟨hext _ (by intro t e; cases e), rfl⟩
+  | line n r => simp only [stepG, Option.some.injEq] at e; subst e; exact ⟨hext _ (by intro t e; cases e), rfl⟩
+  | probe n ok => simp only [stepG, Option.some.injEq] at e; subst e; exact ⟨hext _ (by intro t e; cases e), rfl⟩
+  | probeFatal id n => simp only [stepG, Option.some.injEq] at e; subst e; exact ⟨hext _ (by intro t e; cases e), rfl⟩
+  | killTimeout n => simp only [stepG, Option.some.injEq] at e; subst e; exact ⟨hext _ (by intro t e; cases e), rfl⟩
+  | call id op => simp only [stepG, Option.some.injEq] at e; subst e; exact ⟨hext _ (by intro t e; cases e), rfl⟩
+
+theorem runG_reach {s0 s s' : Sys} (tr : List Choice) (hr : ReachG s0 s) (e : runG s tr = some s') :
+    ReachG s0 s' ∧ s' = (runTrace s tr).1 := by
+  induction tr generalizing s with
+  | nil => simp only [runG, Option.some.injEq] at e; subst e; exact ⟨hr, rfl⟩
+  | cons c cs ih =>
+    unfold runG at e
+    split at e
+    · rename_i s1 h1
+      obtain ⟨a, b⟩ := stepG_reach c {} hr h1
+      obtain ⟨a2, b2⟩ := ih a e
+      refine ⟨a2, ?_⟩
+      rw [b2, b]; rfl
+    · cases e
+
+/-- **Every execution (whole steps, either granularity) that passes the guard - it is the very
+    execution of the model, `runG_reach` - never has two live commands of one replica.** -/
+theorem guarded_run_one_live (gr : Gran) (o : Bool) (cfgs : List Cfg) (tr : List Choice) (s : Sys)
+    (e : runG (init gr o cfgs) tr = some s) (n : Name) :
+    s = (runTrace (init gr o cfgs) tr).1 ∧ aliveCount s n ≤ 1 :=
+  ⟨(runG_reach tr ReachG.init e).2, one_live_command gr o cfgs (runG_reach tr ReachG.init e).1 n⟩
+
+-- the guard is what R1 breaks: the restart of a process that outlives the back-off is rejected ...
+set_option maxRecDepth 4000 in
+example : runG (init .coarse false [{ onSignal := none }]) r1 = none := by decide
+-- ... while the same restart of a process that dies on the signal passes (start, stop, new instance, its launch),
+set_option maxRecDepth 4000 in
+example : (runG (init .coarse false [{}])
+    [.call 0 .runMain, .run 0, .run 1, .call 1 (.restart 0), .run 2, .run 1, .run 2, .run 3]).isSome = true := by decide
+-- and so does a fine-grained run with a stop, a second start and an exit under `always`
+set_option maxRecDepth 8000 in
+example : (runG (init .fine false [{ policy := .always }, { deps := [(0, .started)] }])
+    [.call 0 .runMain, .run 0, .run 1, .run 1, .run 1, .run 1, .run 2, .run 2, .exit 0 1, .run 1, .run 1, .run 1,
+     .call 1 (.stop 0), .run 3, .run 3, .run 3, .run 1, .run 1, .run 1, .run 1]).isSome = true := by decide
 
 end PC.Props.C08
